@@ -356,12 +356,14 @@ for a in ["I", "U", "F", "B", "N", "S", "D", "T", "E"]:
     for (mn, mc) in [("abs", "Abs"), ("sqrt", "Sqrt"), ("log", "Log"), ("lg", "Lg"), ("ceil", "Ceil"), ("floor", "Floor"), ("round", "Round")]:
         add(f"c01_{mn}_{kn(a)}", "C01", "quick" if a in "IUF" else "thorough", uw(a),
             f"crate::c01::math1::<{kt(a)}>(crate::c01::Math::{mc})", dom(a), need=["built-in returned"], funcs=[f"math::{mn}::dispatch"])
-    for ctor in ["int", "uint", "double", "bool", "string", "bytes", "duration", "timestamp", "type", "dyn"]:
+    # `duration` is missing here: its dispatcher has two argument slots (B1); its typed overloads
+    # are checked under C14
+    for ctor in ["int", "uint", "double", "bool", "string", "bytes", "timestamp", "type", "dyn"]:
         if ctor == "string" and a in "IUFDT":
             continue  # number/time formatting is outside reach (DESIGN 3, C14)
         if ctor in ("duration", "timestamp") and a == "S":
             continue  # duration/timestamp parsing of text is outside reach
-        add(f"c01_ctor_{ctor}_{kn(a)}", "C01", "quick" if a in "IUF" and ctor in ("int", "uint", "double", "bool", "duration", "timestamp") else "thorough", uwc(a),
+        add(f"c01_ctor_{ctor}_{kn(a)}", "C01", "quick" if a in "IUF" and ctor in ("int", "uint", "double", "bool", "timestamp") else "thorough", uwc(a),
             f"crate::c01::construct::<{kt(a)}>(\"{ctor}\")", dom(a), need=["constructor returned"], cap=900, funcs=["construct_type", f"{ctor}_type::dispatch"])
 add("c01_jump_total", "C01", "quick", 3, "crate::c01::jump_total()", {"pc": "all usize", "dist": "all i32", "len": "all usize"},
     need=["jump accepted", "jump rejected"], funcs=["Interpreter::checked_jump_target"])
